@@ -424,7 +424,7 @@ class ToUnitInterval(Contract):
                 f"{q}:C04:C03:one log-Jacobian per row, equal to {'' if sign == 1 else 'minus '}the scale log-Jacobian -sum(log(upper - lower))")
         allocs = [e for e in p.events if e[0] == "alloc" and e[1] == "ones"]
         p.prove(z3.BoolVal(bool(allocs) and all(isinstance(e[2], Sym) and e[2].e.eq(g["xdt"].e) for e in allocs)),
-                f"{q}:C04:C15:the constant log-Jacobian is broadcast over an array of the data's floating-point width (a namespace-default float32 `ones` rounds a float64 constant to float32 under torch)")
+                f"{q}:C04:C15:C03:the constant log-Jacobian is broadcast over an array of the data's floating-point width in both directions (else sampling and evaluation of a float64 flow disagree by the float32 rounding);  (a namespace-default float32 `ones` rounds a float64 constant to float32 under torch)")
 
 
 class FromUnitInterval(ToUnitInterval):
